@@ -157,7 +157,7 @@ func c10Work(w *Worker) {
 					emit(&c10Case{Origin: n.Name, Spec: n.Spec, Opts: o, Seps: map[int]string{gi: sp}})
 				}
 			}
-			if w.Thorough() && si < 6 && si > 0 && oi == 0 {
+			if w.Thorough() && si < 6 {
 				for gi, a1 := range atoms {
 					for gj := gi + 1; gj < len(atoms); gj++ {
 						a2 := atoms[gj]
